@@ -129,6 +129,15 @@ class _Eval:
                         return set(), set(), {'$' + e.id}
                     f = f.parent
             if not found:
+                # a module-level constant collection (`_CONFIRMING_EDGE_TYPES = (EdgeType.DERIVES, ...)`)
+                mod = self.fn.module
+                val = mod.assigns.get(e.id) if hasattr(mod, 'assigns') else None
+                if isinstance(val, (ast.Set, ast.List, ast.Tuple)):
+                    return self.set_contents(val)
+                if isinstance(val, ast.Call) and isinstance(val.func, ast.Name) and \
+                        val.func.id in ('frozenset', 'set', 'tuple', 'list') and val.args and \
+                        isinstance(val.args[0], (ast.Set, ast.List, ast.Tuple)):
+                    return self.set_contents(val.args[0])
                 return set(), set(), {'$' + e.id}
             return must or set(), may, sym
         return set(), set(), {short(e, 30)}
@@ -271,6 +280,10 @@ def accepted_in_comprehension(fn, comp_node, gen, members):
         ok = T
         for cond in gen.ifs:
             ok = _and(ok, ev.ev(cond))
+        # `any(<test on the edge type> for edge in ...)`: only edges passing the test have an effect on the result
+        if isinstance(comp_node, (ast.GeneratorExp, ast.ListComp)) and getattr(comp_node, '_in_any', False) and \
+                isinstance(comp_node.elt, (ast.Compare, ast.BoolOp, ast.UnaryOp)):
+            ok = _and(ok, ev.ev(comp_node.elt))
         symbols |= ev.symbols
         if ok != F:
             may.add(m)
@@ -379,6 +392,10 @@ def _analyse_site(prog, fn, call, iterator, members):
             break
         if isinstance(p, ast.comprehension) and a is p.iter:
             comp = pm.get(id(p))
+            outer = pm.get(id(comp))
+            if isinstance(outer, ast.Call) and isinstance(outer.func, ast.Name) and outer.func.id == 'any' and \
+                    outer.args and outer.args[0] is comp:
+                comp._in_any = True
             acc, mst, sym = accepted_in_comprehension(fn, comp, p, members)
             accepted = base & acc
             must = must & mst
@@ -422,10 +439,36 @@ def check_walks(ctx, categories=None, anchors=(), rule='A4'):
                f'members are now {sorted(members)}; a new edge type is undecided at every walk')
     sites = find_walk_sites(prog, members)
     by_key = {s.key: s for s in sites}
+    # a triaged walk that moved into another function of the same module (extract / inline method) is the same walk:
+    # a table row without a site is paired with an un-tabled site of that module that walks in the same direction
+    # and accepts exactly the same edge types
+    moved = {}
+    free_sites = [s for s in sites if s.key not in rows]
+    for k in sorted(k for k in rows if k not in by_key):
+        mod = k.split(':')[0]
+        want_dir = _direction(k.split('|')[1])
+        for s in free_sites:
+            if s.fn.module.name == mod and _direction(s.iterator) == want_dir and \
+                    s.signature() == list(rows[k]['signature']):
+                moved[k] = s
+                break
+    moved_sites = {}
+    for k, s_ in moved.items():
+        moved_sites.setdefault(id(s_), k)       # one helper may now serve several of the triaged walks
     n = 0
     for s in sites:
         ctx.touch(s.fn)
         row = rows.get(s.key)
+        if row is None and id(s) in moved_sites:
+            k = moved_sites[id(s)]
+            row = rows[k]
+            if categories is not None and row['category'] not in categories:
+                continue
+            n += 1
+            ctx.ob(rule, k, True, s.where,
+                   f'walk [{row["category"]}] accepts exactly {list(row["signature"])} ({row.get("reason", "")})',
+                   f'found in {s.fn.qualname} (same module, same direction, same edge types): {short(s.call, 70)}')
+            continue
         if row is not None:
             if categories is not None and row['category'] not in categories:
                 continue
@@ -447,7 +490,7 @@ def check_walks(ctx, categories=None, anchors=(), rule='A4'):
                    'one explicitly named edge type',
                    f'accepts {s.signature()} via {s.consumer}: {short(s.call, 70)} - unclassified walk over '
                    f'constraint edges (EXCLUDES / INCOMPATIBILITY are not derivations)')
-    missing = [k for k in rows if k not in by_key]
+    missing = [k for k in rows if k not in by_key and k not in moved]
     for k in missing:
         fkey_ = k.split('|')[0]
         if fkey_ in anchors or (prog.func_opt(fkey_) is not None and rows[k].get('anchor')):
